@@ -622,19 +622,19 @@ fn run(ctx: &mut Ctx) {
         }
     } else {
         Plan {
-            bytes_n: t.pick(5, 6),
+            bytes_n: t.pick(6, 7),
             tokens_k: t.pick(3, 4),
             pool: true,
-            grammar_docs: t.pick(10_000, 200_000),
+            grammar_docs: t.pick(40_000, 400_000),
             mutants_per_doc: 4,
             truncate_all: true,
             bom_share: 6,
             corpus: true,
             corpus_truncs: t.pick(8, 32),
             corpus_max_len: 64 << 10,
-            random_bytes: t.pick(1_000_000, 20_000_000),
+            random_bytes: t.pick(4_000_000, 40_000_000),
             random_len: 64,
-            random_atoms: t.pick(200_000, 4_000_000),
+            random_atoms: t.pick(1_000_000, 8_000_000),
             ..Plan::default()
         }
     };
